@@ -86,6 +86,20 @@ LITERAL_CASES = [
 ]
 
 
+# Coverage of the compiled batch: pattern strings that together make the parser emit every `Atom` variant it can emit
+# (`C11_parse_emits`, Thm/C11Frame.lean — the first one is the example next to that theorem); they go into EVERY batch, and the
+# batch fails when a variant is absent from the constants that were really compiled.
+COVERAGE_PATTERNS = [
+    "12 ' ${ } % * ? [300-600] @4 i1 u1 i2 u2 i4 u4 z ( 00 | 01 ) 02",
+    "55 8B EC ' ? ?? [4] [16-32]",                       # Byte Save Skip Rangext Many
+    "E8 ${ 48 ' } 90 E9 $ 'C3",                           # Push Jump4 Pop Save
+    "EB % 90 74 %{ 'CC } 8B 05 * 'FF",                    # Jump1 Ptr Push Pop
+    "@2 i1 u1 @3 i2 u2 @4 i4 u4 z 00",                    # Aligned Read* Zero
+    "( 01 | 02 ' | 03 ( 04 | 05 ) ) 06",                  # Case Break Nop, nested
+    "\"text\" 00 [1000] 'FF",                            # quoted bytes, a long skip (Rangext + Skip)
+]
+
+
 class C17(Prop):
     pid = "C17"
     title = "pattern macro = run-time parser"
@@ -149,6 +163,7 @@ class C17(Prop):
     def _batch(self, rng, n_valid, n_bad, with_literals, impl_bin, model_bin):
         viol = []
         valid, bad = self._pick_strings(rng, n_valid, n_bad, model_bin)
+        valid = [p for p in COVERAGE_PATTERNS if p not in valid] + valid
         strings = valid + bad
         lits = [macrocase.escape_literal(s, rng) if rng.random() < 0.85 else macrocase.escape_literal_canonical(s) for s in strings]
         extra = list(LITERAL_CASES) if with_literals else []
@@ -206,14 +221,23 @@ class C17(Prop):
                  "literal_cases_exercised": nlit, "compiled": res["compiled"], "rejected": res["rejected"], "skipped": res["skipped"],
                  "builds": res["builds"], "strings_ok": n_ok_strings, "strings_err": n_err_strings, "compile_errors_worded_differently": n_reworded, "error_kinds": sorted(kinds_seen),
                  "suffixed_compiled": [items[i] for i in det["suffixed"] if i in det["compiled"]],
-                 "rustc_lexer_rejects": [items[i][:80] for i in det["rustc_lexer_rejects"]], "batch_wall_s": res["wall_s"]}
+                 "rustc_lexer_rejects": [items[i][:80] for i in det["rustc_lexer_rejects"]], "batch_wall_s": res["wall_s"],
+                 "atom_variants_compiled": res.get("atom_variants", [])}
+        # coverage of THIS batch (every batch carries COVERAGE_PATTERNS)
+        missing = [v for v in macrocase.EMITTED_VARIANTS if v not in stats["atom_variants_compiled"]]
+        if missing:
+            viol.append("coverage: no compiled constant of the batch contains the Atom variant(s) %s, which the parser can emit (C11_parse_emits)" % missing)
+        extra_v = [v for v in stats["atom_variants_compiled"] if v in macrocase.NEVER_EMITTED or v not in macrocase.ATOM_VARIANTS]
+        if extra_v:
+            viol.append("coverage: a compiled constant contains the Atom variant(s) %s, which no pattern string produces (C11_parse_emits)" % extra_v)
+        stats["atom_variants_missing"] = missing
         return viol, stats
 
     def extra_checks(self, rng, tier, bindir):
         """-> (violation texts, stats): literals through the real proc macro vs. model and run-time parser"""
         t0 = time.time()
         impl_bin = os.path.join(bindir, "impl")
-        model_bin = os.path.join(build.LEAN, ".lake", "build", "bin", "model")
+        model_bin = build.model_bin()
         plan = [(110, 25, True)] if tier == "quick" else [(420, 65, True), (440, 60, False), (440, 60, False)]
         viol, batches = [], []
         for (nv, nb, wl) in plan:
@@ -224,6 +248,9 @@ class C17(Prop):
         for key in ("literals", "compiled", "rejected", "skipped", "builds", "strings_ok", "strings_err", "literal_cases_exercised"):
             stats[key] = sum(b[key] for b in batches)
         stats["error_kinds"] = sorted(set(k for b in batches for k in b["error_kinds"]))
+        stats["atom_variants_compiled"] = sorted(set(v for b in batches for v in b["atom_variants_compiled"]))
+        stats["atom_variants_parser_can_emit"] = list(macrocase.EMITTED_VARIANTS)
+        stats["atom_variants_missing"] = [v for v in macrocase.EMITTED_VARIANTS if v not in stats["atom_variants_compiled"]]
         missing = [k for k in gen_pattern.ERROR_KINDS if k not in stats["error_kinds"]]
         if missing:
             viol.append("batch construction: no rejected literal for the error kinds %s" % missing)
